@@ -816,7 +816,8 @@ func (r *run) stepDone(op *Op) {
 		r.afterShutdown("every watcher called Done")
 	} else if r.isExited() {
 		// C05 too: whatever the remaining watchers report from now on can never reach the view
-		r.viol("C08,C05", "the monitor exited although a source is still watching")
+		// ... nor be answered (C07)
+		r.viol("C08,C05,C07", "the monitor exited although a source is still watching")
 	}
 	r.compareCBs()
 }
@@ -892,8 +893,12 @@ func (r *run) stepRegister(op *Op) {
 			r.viol("C08", "RegisterCallback after shutdown took %v, longer than its context", el)
 			return
 		}
+		if unreg != nil && !r.monAlive {
+			// the monitor has exited (synctest.Wait confirmed it): nothing will ever serve this registration
+			r.viol("C08", "RegisterCallback after the monitor exited returned a non-nil unregister function: a later call must return a failure indication")
+			return
+		}
 		if unreg != nil {
-			// the registration was accepted into the queue of a goroutine that is gone or going: allowed only if it is never called
 			r.label("late-register-accepted")
 		} else {
 			mh.nilFunc = true
